@@ -68,7 +68,7 @@ func terminations(ip string) [][]string {
 		{dec},
 		{"dec m1 a5"}, // not the held address: no termination
 		{"tick 301", "cleanup"},
-		{"cleanup"}, // nothing has expired
+		{"cleanup"},             // nothing has expired
 		{"tick 300", "cleanup"}, // expiry is strict (now.After)
 		{"tick 301", "gap rel m1"},
 		{"tick 301", "gap " + dec},
